@@ -9,7 +9,7 @@ import sys
 import time
 
 VERIF = os.path.dirname(os.path.dirname(os.path.abspath(__file__)))
-WT = "/tmp/wt/eval"
+WT = os.environ.get("SEED_WT", "/tmp/wt/eval")
 
 
 def sh(cmd, **kw):
